@@ -162,8 +162,20 @@ def segs_eq(a, b):
         if x[0] == 'packed' and y[0] == 'packed' and x[1] == y[1]:
             conds.append(iterm(x[3]) == iterm(y[3]))
             continue
+        if (x[0] == 'lit') != (y[0] == 'lit'):
+            lit, other = (x, y) if x[0] == 'lit' else (y, x)
+            to = seg_term(other)
+            if z3.is_app(to) and to.decl().name() in ('int_to_le', 'int_to_be'):
+                order = 'little' if to.decl().name() == 'int_to_le' else 'big'
+                conds.append(to.arg(0) == int.from_bytes(lit[1], order))     # injective encoding of an in-range integer
+                continue
         tx, ty = seg_term(x), seg_term(y)
         if tx.eq(ty):
+            continue
+        if z3.is_app(tx) and z3.is_app(ty) and tx.decl().name() in ('int_to_le', 'int_to_be') and \
+                tx.decl().name() == ty.decl().name() and tx.arg(1).eq(ty.arg(1)):
+            # both were built from in-range integers with the same width: the encoding is injective
+            conds.append(tx.arg(0) == ty.arg(0))
             continue
         conds.append(tx == ty)
     return conj_terms(conds)
